@@ -325,9 +325,14 @@ public:
          object.reDim(num());
       }
 
+      // removals move the scaling exponents together with the bounds: the array must cover every column
+      if(num() > scaleExp.size())
+         scaleExp.reSize(num());
+
       low[num() - 1] = *lowerValue;
       up[num() - 1] = *upperValue;
       object[num() - 1] = *objValue;
+      scaleExp[num() - 1] = 0;
    }
 
    ///
